@@ -443,3 +443,215 @@ def _escapes_classify(fn, x, cfg, exp, obs):
 
 
 CLASSIFY["Escapes"] = _escapes_classify
+
+
+# ============================================================================ C46 LocaleFmt
+
+_LOCALE_NOW = 1623758400          # 2021-06-15 12:00:00 UTC: the pinned "now" of format_date
+
+
+def _with_pinned_clock(thunk):
+    """Run thunk with tornado.locale's `datetime` module replaced by a shim whose
+    datetime.datetime.now() is the pinned instant (everything else is the stdlib's)."""
+    import datetime as _dt
+    import types
+    import tornado.locale as tl
+
+    class PinnedDateTime(_dt.datetime):
+        @classmethod
+        def now(cls, tz=None):
+            return _dt.datetime.fromtimestamp(_LOCALE_NOW, tz if tz is not None else _dt.timezone.utc)
+
+        @classmethod
+        def utcnow(cls):
+            return _dt.datetime.fromtimestamp(_LOCALE_NOW, _dt.timezone.utc).replace(tzinfo=None)
+
+    shim = types.SimpleNamespace(**{k: getattr(_dt, k) for k in dir(_dt) if not k.startswith("__")})
+    shim.datetime = PinnedDateTime
+    orig = tl.datetime
+    tl.datetime = shim
+    try:
+        return thunk()
+    finally:
+        tl.datetime = orig
+
+
+def _locale(code):
+    import tornado.locale as tl
+    if code == "en_US":
+        return tl.Locale.get("en_US")
+    return tl.CSVLocale(code, {})
+
+
+@adapter("LocaleFmt", "friendly_number")
+def _a(x, cfg):
+    return S(_locale("en_US").friendly_number(x))
+
+
+@adapter("LocaleFmt", "friendly_number_fr")
+def _a(x, cfg):
+    return S(_locale("fr_FR").friendly_number(x))
+
+
+@adapter("LocaleFmt", "format_date")
+def _a(x, cfg):
+    import datetime as _dt
+    ts = _LOCALE_NOW - x["d"]
+    form = x["form"]
+    if form == "int":
+        date = ts
+    elif form == "float":
+        date = float(ts)
+    elif form == "naive":
+        date = _dt.datetime.fromtimestamp(ts, _dt.timezone.utc).replace(tzinfo=None)
+    else:
+        date = _dt.datetime.fromtimestamp(ts, _dt.timezone(_dt.timedelta(hours=5, minutes=30)))
+    loc = _locale("en_US")
+    return _with_pinned_clock(lambda: S(loc.format_date(date, gmt_offset=x["gmt"], relative=x["rel"],
+                                                        shorter=x["shorter"], full_format=x["full"])))
+
+
+def _locale_classify(fn, x, cfg, exp, obs):
+    if fn.startswith("friendly_number"):
+        return {"sign": "neg" if x < 0 else "nonneg", "digits_mod3": len(str(abs(x))) % 3}
+    d = x["d"]
+    if d < -60:
+        cls = "future, seconds-of-day part < 60" if (-d) % 86400 < 60 else "future, other"
+    elif d < 0:
+        cls = "future within a minute"
+    else:
+        cls = "past"
+    return {"dcls": cls, "rel": x["rel"], "full": x["full"]}
+
+
+CLASSIFY["LocaleFmt"] = _locale_classify
+
+
+# ============================================================================ C45 LogFormat
+
+def _log_formatter(color):
+    """A real LogFormatter; colour is switched on through the module-level capability probe
+    (the colorama branch: hard-coded ANSI codes), not by touching the formatter's internals."""
+    import tornado.log as tlog
+    if not color:
+        return tlog.LogFormatter(color=False)
+    o1, o2 = tlog._stderr_supports_color, tlog.curses
+    tlog._stderr_supports_color = lambda: True
+    tlog.curses = None
+    try:
+        return tlog.LogFormatter(color=True)
+    finally:
+        tlog._stderr_supports_color, tlog.curses = o1, o2
+
+
+def _log_record(x, cfg):
+    import logging
+    import sys
+    msg = bytes(x) if cfg["form"] == "bytes" else T(x)
+    args = {"none": (), "str": ("x",), "two": (1, 2), "bytes": (b"\xe9\n",), "nl": ("a\nb",),
+            "dict": ({"x": "v\nw"},)}[cfg["args"]]
+    exc_info = None
+    ek = cfg["exc"]
+    if ek in ("simple", "multiline", "bytes"):
+        try:
+            raise ValueError({"simple": "boom", "multiline": "line1\nline2\n[E 250101 00:00:00 forged:1] x",
+                              "bytes": b"\xff\nraw"}[ek])
+        except ValueError:
+            exc_info = sys.exc_info()
+    rec = logging.LogRecord("tornado.test", logging.ERROR, "/x/mod.py", 42, msg, args, exc_info)
+    if ek == "pretext":
+        rec.exc_text = "Traceback (preset)\n  line\nValueError: z"
+    return rec
+
+
+@adapter("LogFormat", "format")
+def _a(x, cfg):
+    fmt = _log_formatter(cfg["color"])
+    return S(fmt.format(_log_record(x, cfg)))
+
+
+def _log_classify(fn, x, cfg, exp, obs):
+    return {"form": cfg.get("form"), "args": cfg.get("args"), "exc": cfg.get("exc"), "color": cfg.get("color")}
+
+
+CLASSIFY["LogFormat"] = _log_classify
+
+
+# ============================================================================ C48 OAuth1
+
+def _oauth_call(x, cfg):
+    """Call the real signature function with hmac.new intercepted at the tornado.auth module
+    boundary; returns (captured key, captured message, returned value, independently recomputed MAC)."""
+    import base64
+    import hashlib
+    import hmac as real_hmac
+    import types
+    import tornado.auth as ta
+    captured = []
+
+    def new(key, msg=None, digestmod=None):
+        captured.append((bytes(key), bytes(msg) if msg is not None else None, digestmod))
+        return real_hmac.new(key, msg, digestmod)
+
+    shim = types.SimpleNamespace(**{k: getattr(real_hmac, k) for k in dir(real_hmac) if not k.startswith("__")})
+    shim.new = new
+    u = cfg["url"]
+    url = T(u["scheme"]) + "://" + T(u["host"]) + (":%d" % u["port"] if u["port"] else "") + T(u["path"])
+    consumer = {"key": "consumer-key", "secret": T(cfg["csec"])}
+    token = {"key": "token-key", "secret": T(cfg["tok"]["s"])} if cfg["tok"]["has"] else None
+    f = ta._oauth_signature if cfg["ver"] == "1.0" else ta._oauth10a_signature
+    results = []
+    for order in (1, -1):                       # parameters are a dict: insertion order must not matter
+        params = {T(p["k"]): T(p["v"]) for p in x[::order]}
+        del captured[:]
+        orig = ta.hmac
+        ta.hmac = shim
+        try:
+            ret = f(consumer, T(cfg["method"]), url, params, token)
+        finally:
+            ta.hmac = orig
+        if len(captured) != 1 or captured[0][1] is None:
+            raise RuntimeError("hmac.new calls: %d" % len(captured))
+        key, msg, dm = captured[0]
+        mac = base64.b64encode(real_hmac.new(key, msg, hashlib.sha1).digest())
+        results.append((key, msg, ret, mac, dm))
+    if results[0][:3] != results[1][:3]:
+        raise RuntimeError("parameter insertion order changes the signature")
+    return results[0]
+
+
+@adapter("OAuth1", "oauth_key")
+def _a(x, cfg):
+    return {"v": list(_oauth_call(x, cfg)[0])}
+
+
+@adapter("OAuth1", "oauth_text")
+def _a(x, cfg):
+    return {"v": list(_oauth_call(x, cfg)[1])}
+
+
+@adapter("OAuth1", "oauth_mac")
+def _a(x, cfg):
+    import hashlib
+    key, msg, ret, mac, dm = _oauth_call(x, cfg)
+    ok = type(ret) is bytes and ret == mac and dm in (hashlib.sha1, "sha1")
+    return {"v": [1 if ok else 0]}
+
+
+_UNRESERVED = set(b"ABCDEFGHIJKLMNOPQRSTUVWXYZabcdefghijklmnopqrstuvwxyz0123456789-._~")
+
+
+def _needs_enc(a):
+    return any(c not in _UNRESERVED for c in a)
+
+
+def _oauth_classify(fn, x, cfg, exp, obs):
+    u = cfg["url"]
+    default = {"http": 80, "https": 443}.get(T(u["scheme"]).lower())
+    return {"ver": cfg["ver"],
+            "name_needs_encoding": any(_needs_enc(p["k"]) for p in x),
+            "secret_needs_encoding": _needs_enc(cfg["csec"]) or (cfg["tok"]["has"] and _needs_enc(cfg["tok"]["s"])),
+            "explicit_default_port": bool(u["port"]) and u["port"] == default}
+
+
+CLASSIFY["OAuth1"] = _oauth_classify
